@@ -278,6 +278,88 @@ def job_two_theta(job, seed):
     return {'obligations': obs, 'candidates': cands, 'paths': 1}
 
 
+def job_two_theta_shapes(job, seed):
+    """two_theta with array-valued beams: per-pixel incident AND scattered beams (same dim), incident per-pixel with a
+    single scattered beam, and beams over different dims (outer).  Every element of the result must be the angle between
+    the corresponding pair of beams, on every path, and no argument may be written."""
+    lay = job
+    import numpy as np
+    from symex import core as C
+    from symex import loader
+    from symex import terms as T
+    from symsc import variable as V
+    from .symutil import fresh_run, sym_unit, sym_vector, sym_vectors, vdot, vnorm2
+
+    loader.install_shim()
+    bl = loader.load('conversion.beamline')
+    fresh_run()
+    uL = sym_unit('L', 'm')
+    d1, d2 = {'both-per-pixel': ('spectrum', 'spectrum'), 'incident-per-pixel': ('spectrum', None), 'outer': ('a', 'b'), 'scattered-per-pixel': (None, 'spectrum')}[lay]
+    b1 = sym_vector('b1', uL) if d1 is None else sym_vectors('b1v', d1, 2, uL)
+    b2 = sym_vector('b2', uL) if d2 is None else sym_vectors('b2v', d2, 2, uL)
+    obs, cands = [], []
+    case = {'kind': 'two_theta_shapes', 'layout': lay}
+
+    def rows(b):
+        return [list(b.values[i]) for i in range(2)] if b.dims else [list(b.values)]
+
+    norms = {}
+    for nm, b in (('b1', b1), ('b2', b2)):
+        for i, w in enumerate(rows(b)):
+            n = C.rsqrt(vnorm2(w), nonneg=True)
+            C.CTX.assume(n > 0)
+            C.CTX.assume_nonzero(n)
+            norms[nm, i] = n
+    V.WRITE_LOG.clear()
+    paths = C.explore(lambda: bl.two_theta(incident_beam=b1, scattered_beam=b2))
+    written = {b.id for b in V.WRITE_LOG}
+    ob = C.prove(f'two_theta[{lay}]:no-argument-written', C.B.const(not ({b1._buf.id, b2._buf.id} & written)))
+    obs.append(ob_dict(ob))
+    if ob.status != 'discharged':
+        cands.append(('C03:mutation', case, 'an argument buffer is written'))
+    for k_, p_ in enumerate(paths):
+        if p_.inconclusive or p_.exc is not None:
+            obs.append({'name': f'two_theta[{lay}]:path{k_}:runs', 'status': 'inconclusive' if p_.inconclusive else 'violated', 'detail': str(p_.inconclusive or repr(p_.exc))[:200], 't': 0})
+            if p_.exc is not None:
+                cands.append(('C03:two_theta:raises', case, repr(p_.exc)))
+            continue
+        out = p_.value
+        exp_dims = tuple(dict.fromkeys([d for d in (d1, d2) if d is not None]))
+        ob = C.prove(f'two_theta[{lay}]:path{k_}:dims {exp_dims}, unit rad', C.B.const(set(out.dims) == set(exp_dims) and str(out.unit) == str(V.parse_unit('rad'))))
+        obs.append(ob_dict(ob))
+        if ob.status != 'discharged':
+            cands.append(('C03:two_theta:shape', case, f'dims {out.dims} unit {out.unit}'))
+            continue
+        for idx in np.ndindex(out.shape):
+            im = dict(zip(out.dims, idx, strict=True))
+            i1 = im[d1] if d1 is not None else 0
+            i2 = im[d2] if d2 is not None else 0
+            u, v = rows(b1)[i1], rows(b2)[i2]
+            term = out.values[idx]
+            yx = _tt_args(term)
+            with C.oracle():
+                c_ = vdot(u, v) / (norms['b1', i1] * norms['b2', i2])
+                if yx is not None:
+                    y_, x_ = yx
+                    cosr, ynn = (x_ * x_ - y_ * y_) / (x_ * x_ + y_ * y_), (y_ >= 0)
+                else:
+                    a_ = T.fn_atom_of(term.t)
+                    if a_ is not None and a_.fn == 'atan2':
+                        y_, x_ = C.R(a_.arg[0]), C.R(a_.arg[1])
+                        cosr, ynn = x_ / C.rsqrt(x_ * x_ + y_ * y_, nonneg=True), (y_ >= 0)
+                    else:
+                        cosr = None
+            if cosr is None:
+                obs.append({'name': f'two_theta[{lay}]:path{k_}:{list(idx)}:structure', 'status': 'violated', 't': 0, 'detail': f'result is not an atan2 form: {str(term)[:120]}'})
+                cands.append(('C03:two_theta:structure', case, 'result is not an atan2 form'))
+                continue
+            ob = C.prove(f'two_theta[{lay}]:path{k_}:{list(idx)}: cos(result) = b1[{i1}].b2[{i2}]/(|b1||b2|), result in [0, pi]', (cosr == c_) & ynn, pc=p_.pc, timeout_ms=30000)
+            obs.append(ob_dict(ob))
+            if ob.status == 'violated':
+                cands.append(('C03:two_theta:value', case, f'element {list(idx)} is not the angle between beams {i1} and {i2}'))
+    return {'obligations': obs, 'candidates': cands, 'paths': len(paths)}
+
+
 def job_stability(job, seed):
     """First-order absolute forward-error analysis of the recorded operation sequence of the REAL two_theta on the
     planar unit-beam family b1 = (L1,0,0), b2 = L2 (cos a, sin a, 0), a in (0, pi) via t = tan(a/2) >= 0:
@@ -415,6 +497,9 @@ def run(chk):
     chk.functions = loader.describe_exprs(['bl.L1', 'bl.L2', 'bl.straight_incident_beam', 'bl.straight_scattered_beam', 'bl.total_beam_length', 'bl.total_straight_beam_length_no_scatter', 'bl.two_theta', 'gb.beamline'], {**globals(), **locals()})
     run_jobs(chk, job_euclid, [(True, None), (False, None), (True, 2), (False, 2)])
     run_jobs(chk, job_two_theta, ['definition', 'units', 'symmetry', 'rescale', 'rotation', 'stability-canary'])
+    # layouts in which the detector carries the pixel dim (dims of the incident beam are a subset of the scattered beam's);
+    # a per-pixel incident beam with a single scattered beam raises DimensionError in the real code (loud, outside the quantifier)
+    run_jobs(chk, job_two_theta_shapes, ['both-per-pixel', 'scattered-per-pixel'])
     run_jobs(chk, job_stability, [False, True])
     run_jobs(chk, job_length_stability, ['Ltotal (no scatter)', 'L1 from positions', 'L2 from positions'])
     from . import shimval
@@ -479,6 +564,36 @@ def replay_real(case):
         exp = float(mpang(u, v))
         if abs(got - exp) > 1e-12 * max(1.0, abs(exp)) + 1e-13:
             bad.append(f'two_theta({u}, {v}) = {got!r}, angle between the beams = {exp!r}')
+        return {'reproduced': bool(bad), 'detail': '; '.join(bad[:2])}
+    if case['kind'] == 'two_theta_shapes':
+        lay = case['layout']
+        d1, d2 = {'both-per-pixel': ('spectrum', 'spectrum'), 'incident-per-pixel': ('spectrum', None), 'outer': ('a', 'b'), 'scattered-per-pixel': (None, 'spectrum')}[lay]
+        for trial in range(40):
+            n = int(rng.integers(2, 5))
+            U = rng.normal(size=(n, 3)) * 10 ** rng.uniform(-3, 3)
+            W = rng.normal(size=(n, 3)) * 10 ** rng.uniform(-3, 3)
+            b1 = sc.vector(U[0], unit='m') if d1 is None else sc.vectors(dims=[d1], values=U, unit='m')
+            b2 = sc.vector(W[0], unit='m') if d2 is None else sc.vectors(dims=[d2], values=W, unit='m')
+            keep1, keep2 = b1.copy(), b2.copy()
+            got = rb.two_theta(incident_beam=b1, scattered_beam=b2)
+            if not sc.identical(b1, keep1) or not sc.identical(b2, keep2):
+                bad.append('argument modified')
+                break
+            for i in range(n if d1 else 1):
+                for j in range(n if d2 else 1):
+                    if d1 and d2 and d1 == d2 and i != j:
+                        continue
+                    g = got
+                    if d1:
+                        g = g[d1, i]
+                    if d2 and d2 != d1:
+                        g = g[d2, j]
+                    exp = mpang(U[i], W[j])
+                    err = abs(mp.mpf(float(g.value)) - exp)
+                    if err > mp.mpf('4e-15'):
+                        bad.append(f'{lay}: |two_theta[{i},{j}] - exact| = {mp.nstr(err, 3)}')
+            if bad:
+                break
         return {'reproduced': bool(bad), 'detail': '; '.join(bad[:2])}
     if case['kind'] == 'two_theta':
         for trial in range(300):
